@@ -22,6 +22,7 @@ type Solver struct {
 	nq     int
 	tsolve time.Duration
 	dead   bool
+	killed bool // the hard deadline of a query fired: the process was killed
 	log    *os.File
 }
 
@@ -123,6 +124,15 @@ func (s *Solver) checkOnce(cmd string, timeoutMs int) (SatResult, string) {
 	if s.name != "cvc5" {
 		pre = fmt.Sprintf("(set-option :timeout %d)\n", timeoutMs)
 	}
+	// hard deadline: z3 4.8.12 does not always honour :timeout (a cross-check query ran for 38
+	// minutes with a 60 s limit); a solver that overruns is killed and the answer is "unknown"
+	if timeoutMs > 0 && s.cmd != nil && s.cmd.Process != nil {
+		timer := time.AfterFunc(time.Duration(timeoutMs)*time.Millisecond*3/2+15*time.Second, func() {
+			s.killed = true
+			_ = s.cmd.Process.Kill()
+		})
+		defer timer.Stop()
+	}
 	lines, err := s.roundTrip(pre + cmd + "\n")
 	d := time.Since(t0)
 	s.tsolve += d
@@ -130,6 +140,9 @@ func (s *Solver) checkOnce(cmd string, timeoutMs int) (SatResult, string) {
 	atomic.AddInt64(&totalSolverNanos, int64(d))
 	atomic.AddInt64(&totalQueries, 1)
 	if err != nil {
+		if s.killed {
+			return Unknown, "hard time-out: solver killed"
+		}
 		return Unknown, err.Error()
 	}
 	res := Unknown
@@ -237,6 +250,15 @@ func (s *Solver) Close() {
 // oneShot runs a standalone query text (full script without check-sat) in a fresh solver context
 // of this process: (reset) + text + (check-sat).
 func (s *Solver) OneShot(text string, timeoutMs int) (SatResult, string) {
+	// the deadline covers sending the script as well: z3 4.8.12 can spend minutes digesting the
+	// assertions while this side is blocked writing to its pipe
+	if timeoutMs > 0 && s.cmd != nil && s.cmd.Process != nil {
+		timer := time.AfterFunc(time.Duration(timeoutMs)*time.Millisecond*3/2+15*time.Second, func() {
+			s.killed = true
+			_ = s.cmd.Process.Kill()
+		})
+		defer timer.Stop()
+	}
 	s.Send("(reset)\n(set-option :produce-models true)\n" + logicCmd() + "(push 1)\n")
 	s.Send(text)
 	return s.checkOnce(checkSatCmd, timeoutMs)
